@@ -8,7 +8,7 @@ DEMO=$O/demo$K.tcl
 run_demo() {
   if [ -f $O/demo$K.tcl ]; then
     case "$(cat $O/meta$K.json)" in *"moltsh test"*) M=test;; *) M=shell;; esac
-    timeout 60 target/debug/moltsh $M $O/demo$K.tcl 2>&1
+    timeout 60 target/debug/moltsh $M $O/demo$K.tcl 2>&1; echo "exit=$?"
   elif [ -f $O/demo$K.rs ]; then
     mkdir -p molt/examples; cp $O/demo$K.rs molt/examples/seed_demo.rs; timeout 300 cargo run -q --offline -p molt --example seed_demo 2>&1 | grep -v "^warning\|^ *|\|^ *=\|^ *-->\|^$"; rm -rf molt/examples
   fi
